@@ -49,7 +49,7 @@ pub fn replay_file(path: &std::path::Path) -> i32 {
                 }
             }
         }
-        "c02-race" => verdict("C02", path, c02::replay(case)),
+        "c02-race" => verdict(v["property"].as_str().unwrap_or("C02"), path, c02::replay(case)),
         "c07-trace" => verdict("C07", path, c07::replay(case)),
         "c15-trace" => verdict("C15", path, c15::replay(case)),
         "c19-trace" => verdict("C19", path, c19::replay(case)),
